@@ -27,6 +27,8 @@ func init() {
 		c01AtomicTake(c)
 		c20Snapshot(c, "C01.8b")
 		c01Kind(c)
+		c01SendWiring(c, "C01.13")
+		lockBalance(c, "C01.14", "engine", "transports")
 		c16Encoded(c)                                                                                // C01.10: the polling batch is encoded as handed over (C16.1)
 		c03AdmittedStates(c, "C01.12", map[string]bool{"sendPacket/Push": true, "flush/Send": true}) // every accepted Send is buffered and every buffer is drained while not closed
 		c16Headers(c)                                                                                // C01.11: the polling body is labelled with its own kind and length (C16.2): a mislabelled body is undecodable
